@@ -338,3 +338,7 @@ Section Stats.
 End Stats.
 Arguments stats : clear implicits.
 Arguments mstats : clear implicits.
+
+(* the keyword arguments of  logbook.record( **gen, **mstats.compile(pop) )  for integer-valued statistics *)
+Definition compiled_infos (gen : entry) (rec : list (name * list (name * Z))) : dict :=
+  inject gen ++ map (fun kr => (fst kr, VDict (inject (snd kr)))) rec.
